@@ -474,6 +474,16 @@ def runOps (fixed : Bool) (r : R) (w : World) : List Op → List Ev
   | .callDie :: ops =>
     match callK fixed .peerDies r w with
     | (ev, r', w') => ev :: runOps fixed r' w' ops
+  | .pair :: ops =>
+    -- `tower::buffer`: the worker takes the two requests in the order they were sent and handles
+    -- each completely (`poll_ready` until ready, then `call`) before the next: the first request
+    -- gets the failure of the attempt it triggered, the second triggers its own
+    match serve r (answersFor w r) with
+    | (r1, _, res1) =>
+      match serve r1 (answersFor (w.after r r1) r1) with
+      | (r2, _, res2) =>
+        .pair (callRes fixed w res1) (callRes fixed (w.after r r1) res2) r2.made ::
+          runOps fixed r2 ((w.after r r1).after r1 r2) ops
 
 /-- `Endpoint::connect_with_connector_lazy` / `connect_with_connector`, then the script. -/
 def run (fixed : Bool) (isLazy : Bool) (outcomes : List Outcome) (ops : List Op) : Trace :=
